@@ -110,8 +110,8 @@ class Run:
             if rc != 0:
                 self.say("spec driver build failed", (o + e)[-3000:]); raise SystemExit(2)
             # proofs of this property + the model driver
-            mod = f"Lz4V.Props.{self.prop}"
-            targets = ["lz4v-driver"] + ([mod] if os.path.exists(os.path.join(LEAN, "Lz4V/Props", self.prop + ".lean")) else [])
+            self.mods = sorted(set(t["module"] for t in self.cfg.get("theorems", [])))
+            targets = ["lz4v-driver"] + self.mods
             rc, o, e = sh(["lake", "build"] + targets, cwd=LEAN)
             self.lake_ok = rc == 0
             if rc != 0:
@@ -146,8 +146,7 @@ class Run:
             self.say("P: forbidden constructs:", *bad[:5])
         if not thms or not self.lake_ok:
             return out
-        mod = f"Lz4V.Props.{self.prop}"
-        src = f"import {mod}\n" + "".join(f"#print axioms {t['name']}\n" for t in thms)
+        src = "".join(f"import {m}\n" for m in self.mods) + "".join(f"#print axioms {t['name']}\n" for t in thms)
         f = os.path.join(self.work, "Audit.lean")
         open(f, "w").write(src)
         rc, o, e = sh(["lake", "env", "lean", f], cwd=LEAN)
@@ -168,10 +167,11 @@ class Run:
         self.proof["discharged"] = ok
         self.say(f"P: {ok}/{len(thms)} theorems checked by the kernel with axioms ⊆ {sorted(ALLOWED_AXIOMS)}")
         if self.tier == "thorough":
-            rc, o, e = sh(["lake", "env", "leanchecker", mod], cwd=LEAN)
-            self.say("P: leanchecker", mod, "rc=%d" % rc, (o + e).strip()[-200:])
-            if rc != 0:
-                out.append(Violation("P", "leanchecker rejected " + mod, extra=dict(theorem=mod)))
+            for mod in self.mods:
+                rc, o, e = sh(["lake", "env", "leanchecker", mod], cwd=LEAN)
+                self.say("P: leanchecker", mod, "rc=%d" % rc, (o + e).strip()[-200:])
+                if rc != 0:
+                    out.append(Violation("P", "leanchecker rejected " + mod, extra=dict(theorem=mod)))
         return out
 
     # ------------------------------------------------------------------ K + O
@@ -372,7 +372,7 @@ class Run:
         cov = dict(
             obligations=max(self.proof["obligations"], 1) if cfg.get("theorems") else 0,
             discharged=self.proof["discharged"],
-            checker_cmd=f"cd /verif/lean && lake build Lz4V.Props.{self.prop} && lake env lean <(#print axioms …)  # run by ./check {self.prop}",
+            checker_cmd="cd /verif/lean && lake build " + " ".join(getattr(self, "mods", [])) + f" && lake env lean Audit.lean (#print axioms of each theorem)  # run by ./check {self.prop}",
             trusted_base=P.TRUSTED_BASE + cfg.get("trusted_extra", []),
             theorems=self.proof["theorems"],
             evaluations=self.cov["evaluations"],
@@ -391,7 +391,9 @@ class Run:
             cov["exhaustive"] = True
         if not cfg.get("theorems"):
             for k in ("obligations", "discharged"): cov.pop(k)
-        ev = dict(property_id=self.prop, tier=self.tier, seed=self.seed, level=cfg.get("level", "proof"),
+            cov["programs"] = len(cfg.get("runs", [])) or 1
+            cov["disagreements_checked"] = self.cov["evaluations"]
+        ev = dict(property_id=self.prop, tier=self.tier, seed=self.seed, level=cfg.get("level", "proof" if cfg.get("theorems") else "translation_validation"),
                   coverage=cov, assumptions=cfg.get("assumptions", P.ASSUMPTIONS), wall_s=round(time.time() - self.t0, 2),
                   violations=nviol)
         os.makedirs(os.path.join(ROOT, "evidence"), exist_ok=True)
